@@ -176,6 +176,9 @@ class AsyncClient(base_client.BaseClient):
                 base_client.connected_clients.remove(self)
             except ValueError:  # pragma: no cover
                 pass
+        elif self.state == 'disconnecting':
+            # another disconnect() is in progress and will finish the job
+            return
         await self._reset()
 
     def start_background_task(self, target, *args, **kwargs):
